@@ -51,7 +51,8 @@ type Op struct {
 	wasBlocked  bool
 	BlockedAt   time.Duration
 	BlockedStep int64
-	protoAt     int // (C15) protocol the connection spoke when the reply was read
+	protoAt     int  // (C15) protocol the connection spoke when the reply was read
+	AfterClose  bool // (C20) sent after the connection's emulator had returned from Close
 }
 
 type Violation struct {
@@ -81,6 +82,7 @@ type simClient struct {
 	plan      *Client
 	conn      *Conn
 	connGen   int
+	connInst  *emuInst // the emulator instance the current connection was made to
 	everConn  bool
 	cliClosed bool
 	pos       int
@@ -111,6 +113,8 @@ type emuInst struct {
 	started bool
 	closed  bool
 	gen     int
+	// closedStep: scheduler step at which Close / WaitForTermination returned
+	closedStep int64
 }
 
 type Stats struct {
@@ -886,6 +890,9 @@ func (w *World) clientStep(c *simClient) {
 		}
 		if c.cliClosed || c.eof {
 			op := &Op{Client: c.idx, Idx: c.pos, Item: it, Invoke: w.step, Return: -1, TInvoke: w.Now(), Lost: true, ConnGen: c.connGen}
+			if c.connInst != nil && c.connInst.closed && c.connInst.closedStep < w.step {
+				op.AfterClose = true
+			}
 			w.history = append(w.history, op)
 			c.pos++
 			w.logf("C c%d lost-cmd", c.idx)
@@ -947,6 +954,10 @@ func (w *World) clientStep(c *simClient) {
 			data = EncodeCmd(args)
 		}
 		op := &Op{Client: c.idx, Idx: c.pos, Item: it, Invoke: w.step, Return: -1, TInvoke: w.Now(), ConnGen: c.connGen}
+		if c.connInst != nil && c.connInst.closed && c.connInst.closedStep < w.step {
+			// sent on a connection whose emulator had already returned from Close
+			op.AfterClose = true
+		}
 		w.history = append(w.history, op)
 		w.stats.Cmds++
 		c.sendbuf = data
@@ -1064,6 +1075,7 @@ func (w *World) connect(c *simClient) bool {
 		return false
 	}
 	c.conn = conn
+	c.connInst = inst
 	c.everConn = true
 	c.cliClosed = false
 	c.eof = false
@@ -1137,9 +1149,11 @@ func (w *World) adminOp(c *simClient, it *Item) {
 	case "emu-term":
 		f = func() { w.emus[i].eng.RequestTermination() }
 	case "emu-wait":
-		f = func() { w.emus[i].eng.WaitForTermination(); w.emus[i].closed = true }
+		inst := w.emus[i]
+		f = func() { inst.eng.WaitForTermination(); inst.closed = true; inst.closedStep = w.step }
 	case "emu-close":
-		f = func() { w.emus[i].eng.Close(); w.emus[i].closed = true }
+		inst := w.emus[i]
+		f = func() { inst.eng.Close(); inst.closed = true; inst.closedStep = w.step }
 	default:
 		panic("unknown admin op " + it.Op)
 	}
